@@ -1,9 +1,986 @@
-//! stub — not built yet
+//! C06 — "Wire representations survive emit-then-parse unchanged".
+//!
+//! E2 (bounded-exhaustive input enumeration, no randomness) over every `Repr` type of
+//! `smoltcp::wire` named by the property.  For every enumerated value `r` of a type:
+//!
+//!  1. `emit` into a buffer of exactly the declared length (`buffer_len()`, or
+//!     `header_len()` + payload where the type's API defines it that way), three times,
+//!     pre-filled with 0x00 / 0xFF / 0xA5: no panic, the three results byte-identical;
+//!  2. parse the emitted bytes (checked constructor + `Repr::parse`, default checksum
+//!     capabilities = verify): the result must equal `r`;
+//!  3. every single-byte mutation of a representative subset of the emitted packets; a
+//!     mutant that still parses (checksums ignored) to some `r2` that is inside the proviso
+//!     of the statement is put through (1)+(2) itself (`parse(emit(r2)) == r2`, emit does
+//!     not panic, bytes independent of the buffer).
+//!
+//! The proviso of the statement ("provided its variable-length parts fit what the protocol
+//! permits") lives in the generators (`chunk`) and in `legal` (for parsed values), never in
+//! a loosened comparison; the few places where the comparison itself is lenient are
+//! documented at the type (`same`).
+
 use crate::core::*;
-pub fn run(_tier: Tier) -> i32 {
-    eprintln!("harness not built yet");
-    2
+use rayon::prelude::*;
+use serde_json::{json, Value};
+use smoltcp::phy::ChecksumCapabilities;
+use std::collections::BTreeMap;
+use std::fmt::Debug;
+use std::panic::{catch_unwind, AssertUnwindSafe};
+
+mod app;
+mod icmp;
+mod ip;
+mod link;
+mod lowpan;
+mod transport;
+
+pub const FILLS: [u8; 3] = [0x00, 0xFF, 0xA5];
+
+pub fn caps(strict: bool) -> ChecksumCapabilities {
+    if strict {
+        ChecksumCapabilities::default()
+    } else {
+        ChecksumCapabilities::ignored()
+    }
 }
-pub fn replay(_art: &serde_json::Value) -> i32 {
-    2
+
+/// One wire representation type under test.
+///
+/// `R<'x>` is the real smoltcp `Repr` (possibly paired with the payload the type's API
+/// keeps outside the `Repr`).  Parsing is continuation-passing because several smoltcp
+/// parsers hand out a `Repr` that borrows from a local packet wrapper.
+pub trait Rt: 'static {
+    const NAME: &'static str;
+    type R<'x>: Debug + Send + Sync;
+    /// Everything `emit`/`parse` need besides the `Repr` (pseudo-header addresses, 6LoWPAN
+    /// contexts, ...).  Part of the enumerated input.
+    type Ctx: Debug + Clone + Send + Sync + 'static;
+
+    /// The domain is produced in independent chunks (parallelism + bounded memory).
+    fn nchunks(_tier: Tier) -> usize {
+        1
+    }
+    fn chunk(tier: Tier, i: usize) -> Vec<(Self::R<'static>, Self::Ctx)>;
+
+    /// Declared length.
+    fn blen(r: &Self::R<'_>, c: &Self::Ctx) -> usize;
+    /// Emit into a buffer of exactly `blen` bytes.
+    fn emit(r: &Self::R<'_>, c: &Self::Ctx, buf: &mut [u8]);
+    /// Same, for the types whose `emit` is fallible.
+    fn emit_r(r: &Self::R<'_>, c: &Self::Ctx, buf: &mut [u8]) -> Result<(), String> {
+        Self::emit(r, c, buf);
+        Ok(())
+    }
+    /// Checked constructor + `Repr::parse`; `strict` = verify checksums.
+    fn parse(b: &[u8], c: &Self::Ctx, strict: bool, k: &mut dyn FnMut(Option<&Self::R<'_>>));
+    /// Equality demanded by the statement (the `Repr`'s own `PartialEq` unless documented).
+    fn same(a: &Self::R<'_>, b: &Self::R<'_>, c: &Self::Ctx) -> bool;
+    /// Proviso of the statement for values obtained by parsing a mutated packet.
+    fn legal(_r: &Self::R<'_>, _c: &Self::Ctx) -> bool {
+        true
+    }
+    /// Variant name (enums), used in signatures and to make the mutation subset cover
+    /// every variant.
+    fn tag(_r: &Self::R<'_>) -> String {
+        String::new()
+    }
+    /// Signature hygiene only: maps a differing field name to the name used in the
+    /// signature (lets a type fold fields that always fail together).
+    fn field_group(f: &str) -> String {
+        f.to_string()
+    }
+    /// Signature hygiene only: a name for the cause of buffer-dependent bytes instead of
+    /// the raw offsets (`off` = differing offsets outside the checksum field).
+    /// One violation is recorded per returned cause.
+    fn dirty_cause(_r: &Self::R<'_>, _off: &[usize]) -> Option<Vec<String>> {
+        None
+    }
+    /// Text images used to name the differing fields (left: the value, right: what the
+    /// parser returned); only types with a documented lenient `same` override them.
+    fn show_lhs(r: &Self::R<'_>) -> String {
+        format!("{:#?}", r)
+    }
+    fn show_rhs(p: &Self::R<'_>) -> String {
+        format!("{:#?}", p)
+    }
+    /// Variant / class name used in signatures (defaults to `tag`).
+    fn sig_tag(r: &Self::R<'_>) -> String {
+        Self::tag(r)
+    }
+    /// Byte range of the checksum field inside the emitted packet, only used to keep
+    /// signatures stable (a dirty byte elsewhere also changes the checksum).
+    fn cksum(_r: &Self::R<'_>) -> Option<std::ops::Range<usize>> {
+        None
+    }
+    /// (base number of packets, max packet length) of the representative subset for clause 3;
+    /// the base number is multiplied by `mut_scale(tier)`.
+    fn mut_params(tier: Tier) -> (usize, usize) {
+        match tier {
+            Tier::Quick => (48, 400),
+            Tier::Thorough => (400, 400),
+        }
+    }
+    /// Hand-made packets (not obtained from `emit`) fed to the parse side of clause 3.
+    fn catalogue(_tier: Tier) -> Vec<(Vec<u8>, Self::Ctx)> {
+        vec![]
+    }
+    /// Free-form description of the enumerated domain (goes into the evidence).
+    fn domain_doc() -> &'static str;
+}
+
+#[derive(Clone, Debug)]
+pub struct Origin {
+    pub chunk: usize,
+    pub index: usize,
+    /// single-byte mutation applied to the zero-fill emission of that value
+    pub mutation: Option<(usize, u8)>,
+    /// index into `catalogue()` instead of a generated value
+    pub catalogue: Option<usize>,
+}
+
+#[derive(Default)]
+pub struct Acc {
+    pub values: u64,
+    pub r2_values: u64,
+    pub emits: u64,
+    pub parses: u64,
+    pub fps: Vec<u64>,
+    pub mutants_tried: u64,
+    pub mutants_parsed: u64,
+    pub mutants_outside_proviso: u64,
+    pub mutant_parse_panics: u64,
+    pub catalogue_parsed: u64,
+    pub viols: BTreeMap<String, (String, Value)>,
+    pub viol_hits: BTreeMap<String, u64>,
+    pub sample: Option<Value>,
+    pub sample_mut: Option<Value>,
+    pub verbose: bool,
+}
+
+impl Acc {
+    /// Count a hit; the (expensive) detail text is only built for the first hit of a signature.
+    fn viol(&mut self, sig: String, detail: impl FnOnce() -> String, replay: impl FnOnce() -> Value) {
+        *self.viol_hits.entry(sig.clone()).or_insert(0) += 1;
+        if self.verbose {
+            let d = detail();
+            println!("violation: {} :: {}", sig, d);
+            self.viols.entry(sig).or_insert_with(|| (d, replay()));
+        } else if !self.viols.contains_key(&sig) {
+            self.viols.insert(sig, (detail(), replay()));
+        }
+    }
+    fn merge(&mut self, o: Acc) {
+        self.values += o.values;
+        self.r2_values += o.r2_values;
+        self.emits += o.emits;
+        self.parses += o.parses;
+        self.fps.extend(o.fps);
+        self.mutants_tried += o.mutants_tried;
+        self.mutants_parsed += o.mutants_parsed;
+        self.mutants_outside_proviso += o.mutants_outside_proviso;
+        self.mutant_parse_panics += o.mutant_parse_panics;
+        self.catalogue_parsed += o.catalogue_parsed;
+        for (k, v) in o.viols {
+            self.viols.entry(k).or_insert(v);
+        }
+        for (k, v) in o.viol_hits {
+            *self.viol_hits.entry(k).or_insert(0) += v;
+        }
+        if self.sample.is_none() {
+            self.sample = o.sample;
+        }
+        if self.sample_mut.is_none() {
+            self.sample_mut = o.sample_mut;
+        }
+    }
+}
+
+pub fn hex(b: &[u8]) -> String {
+    let mut s = String::with_capacity(b.len() * 2);
+    for (i, x) in b.iter().enumerate() {
+        if i >= 192 {
+            s.push_str(&format!("..(+{} bytes)", b.len() - i));
+            break;
+        }
+        s.push_str(&format!("{:02x}", x));
+    }
+    s
+}
+
+fn fp64(name: &str, b: &[u8]) -> u64 {
+    use std::hash::{Hash, Hasher};
+    let mut h = std::collections::hash_map::DefaultHasher::new();
+    name.hash(&mut h);
+    b.hash(&mut h);
+    h.finish()
+}
+
+/// Names of the fields in which two `{:#?}` images differ (lower-case path segments only,
+/// i.e. field names, not type / variant names), for stable signatures.
+pub fn diff_fields(a: &str, b: &str) -> String {
+    fn flatten(s: &str) -> BTreeMap<String, Vec<String>> {
+        let mut out: BTreeMap<String, Vec<String>> = BTreeMap::new();
+        let mut stack: Vec<String> = vec![];
+        for line in s.lines() {
+            let ind = line.len() - line.trim_start().len();
+            let lvl = ind / 4;
+            let t = line.trim();
+            if t.is_empty() {
+                continue;
+            }
+            let closer = t.chars().all(|c| matches!(c, '}' | ')' | ']' | ','));
+            if closer {
+                continue;
+            }
+            stack.truncate(lvl);
+            let name: String = if let Some(p) = t.find(": ") {
+                t[..p].to_string()
+            } else {
+                t.chars().take_while(|c| c.is_ascii_alphanumeric() || *c == '_').collect()
+            };
+            let opener = t.ends_with('{') || t.ends_with('(') || t.ends_with('[');
+            let mut path: Vec<&str> = stack.iter().map(|s| s.as_str()).collect();
+            path.push(&name);
+            let key: Vec<&str> = path
+                .iter()
+                .copied()
+                .filter(|s| s.chars().next().map(|c| c.is_ascii_lowercase() || c == '_').unwrap_or(false))
+                .collect();
+            let key = if key.is_empty() { "value".to_string() } else { key[0].to_string() };
+            out.entry(key).or_default().push(t.to_string());
+            if opener {
+                stack.push(name);
+            }
+        }
+        out
+    }
+    let fa = flatten(a);
+    let fb = flatten(b);
+    let mut names: Vec<String> = vec![];
+    for k in fa.keys().chain(fb.keys()) {
+        if fa.get(k) != fb.get(k) && !names.contains(k) {
+            names.push(k.clone());
+        }
+    }
+    names.sort();
+    if names.is_empty() {
+        "value".into()
+    } else {
+        names.truncate(5);
+        names.join("+")
+    }
+}
+
+fn ranges(off: &[usize]) -> String {
+    let mut out = vec![];
+    let mut i = 0;
+    while i < off.len() {
+        let s = off[i];
+        let mut e = s;
+        while i + 1 < off.len() && off[i + 1] == e + 1 {
+            i += 1;
+            e = off[i];
+        }
+        out.push(if s == e { format!("{}", s) } else { format!("{}-{}", s, e) });
+        i += 1;
+    }
+    if out.len() > 4 {
+        format!("{},..({} ranges)", out[..3].join(","), out.len())
+    } else {
+        out.join(",")
+    }
+}
+
+fn tagsep(t: &str) -> String {
+    if t.is_empty() {
+        String::new()
+    } else {
+        format!("/{}", t)
+    }
+}
+
+fn replay_json<T: Rt>(tier: Tier, o: &Origin) -> Value {
+    json!({"harness": "wire_rt", "type": T::NAME, "tier": tier.name(), "chunk": o.chunk, "index": o.index,
+        "mutation": o.mutation.map(|(p, v)| json!({"pos": p, "val": v})),
+        "catalogue": o.catalogue})
+}
+
+enum ParseOut {
+    Same,
+    Err,
+    Differs(String),
+}
+
+/// Parse `b` strictly and compare with `r`.
+fn parse_cmp<T: Rt>(r: &T::R<'_>, c: &T::Ctx, b: &[u8]) -> Result<ParseOut, (String, String)> {
+    catch_unwind(AssertUnwindSafe(|| {
+        let mut out = ParseOut::Err;
+        T::parse(b, c, true, &mut |p| {
+            out = match p {
+                None => ParseOut::Err,
+                Some(p) => {
+                    if T::same(r, p, c) {
+                        ParseOut::Same
+                    } else {
+                        ParseOut::Differs(T::show_rhs(p))
+                    }
+                }
+            }
+        });
+        out
+    }))
+    .map_err(|e| (panic_msg(e), last_panic_loc()))
+}
+
+fn grouped_diff<T: Rt>(a: &str, b: &str) -> String {
+    let d = diff_fields(a, b);
+    let mut g: Vec<String> = d.split('+').map(T::field_group).collect();
+    g.sort();
+    g.dedup();
+    g.join("+")
+}
+
+/// Clauses (1) and (2) for one value.  Returns the zero-fill emission.
+///
+/// Verdicts: no panic in `buffer_len`/`emit`; the three emissions identical; the zero-fill
+/// emission parses back to `r`.  What the dirty emissions parse to is only put into the
+/// detail text of the buffer-dependence violation (it is a consequence of it, not a
+/// separate defect).
+pub fn check<T: Rt>(acc: &mut Acc, tier: Tier, r: &T::R<'_>, c: &T::Ctx, o: &Origin) -> Option<Vec<u8>> {
+    let derived = o.mutation.is_some() || o.catalogue.is_some();
+    if derived {
+        acc.r2_values += 1;
+    } else {
+        acc.values += 1;
+    }
+    let tag = T::sig_tag(r);
+    let kind = if derived { "re-parsed" } else { "generated" };
+    let rj = || replay_json::<T>(tier, o);
+    let n = match catch_unwind(AssertUnwindSafe(|| T::blen(r, c))) {
+        Ok(n) => n,
+        Err(e) => {
+            let site = panic_site();
+            let (m, l) = (panic_msg(e), last_panic_loc());
+            acc.viol(
+                format!("C06/buffer_len-panic/{}{}/{}", T::NAME, tagsep(&tag), site),
+                || format!("buffer_len() of a {} value panicked: {} at {}; value {:?} ctx {:?}", kind, m, l, r, c),
+                rj,
+            );
+            return None;
+        }
+    };
+    let mut bufs: Vec<Vec<u8>> = Vec::with_capacity(3);
+    for fill in FILLS {
+        let mut b = vec![fill; n];
+        acc.emits += 1;
+        match catch_unwind(AssertUnwindSafe(|| T::emit_r(r, c, &mut b))) {
+            Ok(Ok(())) => bufs.push(b),
+            Ok(Err(msg)) => {
+                acc.viol(
+                    format!("C06/emit-refuses/{}{}", T::NAME, tagsep(&tag)),
+                    || format!("emit of a {} value into a buffer of its declared length {} (pre-filled 0x{:02x}) returned an error ({}); value {:?} ctx {:?}", kind, n, fill, msg, r, c),
+                    rj,
+                );
+                return None;
+            }
+            Err(e) => {
+                let site = panic_site();
+                let (m, l) = (panic_msg(e), last_panic_loc());
+                acc.viol(
+                    format!("C06/emit-panic/{}{}/{}", T::NAME, tagsep(&tag), site),
+                    || {
+                        format!(
+                            "emit of a {} value into a buffer of its declared length {} (pre-filled 0x{:02x}) panicked: {} at {}; value {:?} ctx {:?}",
+                            kind, n, fill, m, l, r, c
+                        )
+                    },
+                    rj,
+                );
+                return None;
+            }
+        }
+    }
+    if bufs[1] != bufs[0] || bufs[2] != bufs[0] {
+        let ck = T::cksum(r);
+        let all: Vec<usize> = (0..n).filter(|&i| bufs[1][i] != bufs[0][i] || bufs[2][i] != bufs[0][i]).collect();
+        let mut off = all.clone();
+        if let Some(ck) = &ck {
+            off.retain(|i| !ck.contains(i));
+        }
+        let causes = T::dirty_cause(r, &off).unwrap_or_else(|| vec![format!("bytes{}", ranges(&off))]);
+        for cause in causes {
+            let sig = format!("C06/emit-depends-on-buffer/{}{}/{}", T::NAME, tagsep(&tag), cause);
+            acc.viol(
+                sig,
+                || {
+                    // informational (not counted, no verdict): what do the dirty emissions parse to?
+                    let mut conseq = vec![];
+                    for i in 1..3 {
+                        conseq.push(match parse_cmp::<T>(r, c, &bufs[i]) {
+                            Ok(ParseOut::Same) => format!("0x{:02x}-fill emission parses back to r", FILLS[i]),
+                            Ok(ParseOut::Err) => format!("0x{:02x}-fill emission is rejected by the parser", FILLS[i]),
+                            Ok(ParseOut::Differs(p)) => format!("0x{:02x}-fill emission parses to a different value (fields {})", FILLS[i], grouped_diff::<T>(&T::show_lhs(r), &p)),
+                            Err((m, l)) => format!("0x{:02x}-fill emission makes the parser panic ({} at {})", FILLS[i], m, l),
+                        });
+                    }
+                    format!(
+                        "emitted bytes depend on previous buffer content at offsets [{}] (of {}): zero-fill {} ff-fill {} a5-fill {}; {}; {} value {:?} ctx {:?}",
+                        ranges(&all), n, hex(&bufs[0]), hex(&bufs[1]), hex(&bufs[2]), conseq.join("; "), kind, r, c
+                    )
+                },
+                rj,
+            );
+        }
+    }
+    acc.parses += 1;
+    let clause = if derived { "reparse" } else { "roundtrip" };
+    match parse_cmp::<T>(r, c, &bufs[0]) {
+        Ok(ParseOut::Same) => {}
+        Ok(ParseOut::Err) => {
+            // diagnosis only: is it the checksum verification that rejects, and what would
+            // the packet parse to without it?
+            let mut why = "rejected".to_string();
+            let _ = catch_unwind(AssertUnwindSafe(|| {
+                T::parse(&bufs[0], c, false, &mut |p| {
+                    if let Some(p) = p {
+                        why = if T::same(r, p, c) {
+                            "checksum-rejected".to_string()
+                        } else {
+                            format!("checksum-rejected+{}", grouped_diff::<T>(&T::show_lhs(r), &T::show_rhs(p)))
+                        };
+                    }
+                })
+            }));
+            acc.viol(
+                format!("C06/{}-parse-fails/{}{}/{}", clause, T::NAME, tagsep(&tag), why),
+                || format!("bytes emitted (zero-filled buffer) from a {} value are rejected by the parser ({}): value {:?} ctx {:?} emitted {}", kind, why, r, c, hex(&bufs[0])),
+                rj,
+            );
+        }
+        Ok(ParseOut::Differs(p)) => {
+            let d = grouped_diff::<T>(&T::show_lhs(r), &p);
+            acc.viol(
+                format!("C06/{}-differs/{}{}/{}", clause, T::NAME, tagsep(&tag), d),
+                || {
+                    format!(
+                        "parse(emit(r)) != r ({} value, zero-filled buffer), differing fields: {}; r = {:?}; parsed = {}; ctx {:?}; emitted {}",
+                        kind, d, r, p.split_whitespace().collect::<Vec<_>>().join(" "), c, hex(&bufs[0])
+                    )
+                },
+                rj,
+            );
+        }
+        Err((m, l)) => {
+            let site = panic_site();
+            acc.viol(
+                format!("C06/{}-parse-panic/{}{}/{}", clause, T::NAME, tagsep(&tag), site),
+                || format!("parsing the bytes emitted from a {} value panicked: {} at {}; value {:?} emitted {}", kind, m, l, r, hex(&bufs[0])),
+                rj,
+            );
+        }
+    }
+    if acc.sample_mut.is_none() && o.mutation.is_some() {
+        let (p, v) = o.mutation.unwrap();
+        acc.sample_mut = Some(json!({"type": T::NAME, "source_value": {"chunk": o.chunk, "index": o.index}, "mutation": {"pos": p, "val": v},
+            "reparsed_value": format!("{:?}", r), "re_emitted": hex(&bufs[0])}));
+    }
+    if acc.sample.is_none() && !derived {
+        acc.sample = Some(json!({"type": T::NAME, "value": format!("{:?}", r), "ctx": format!("{:?}", c), "declared_len": n, "emitted": hex(&bufs[0])}));
+    }
+    if acc.verbose {
+        println!("  value ({}) = {:?}", kind, r);
+        println!("  ctx = {:?}", c);
+        println!("  declared length = {}", n);
+        for i in 0..3 {
+            println!("  emit over 0x{:02x}-filled buffer: {}", FILLS[i], hex(&bufs[i]));
+        }
+    }
+    Some(bufs.swap_remove(0))
+}
+
+pub fn mut_scale(tier: Tier) -> usize {
+    match tier {
+        Tier::Quick => 8,
+        Tier::Thorough => 16,
+    }
+}
+
+pub fn mutation_values(tier: Tier, orig: u8) -> Vec<u8> {
+    match tier {
+        Tier::Quick => {
+            let mut v = vec![];
+            for x in [0x00u8, 0xff, orig ^ 0x01, orig ^ 0x80] {
+                if x != orig && !v.contains(&x) {
+                    v.push(x);
+                }
+            }
+            v
+        }
+        Tier::Thorough => (0..=255u8).filter(|&x| x != orig).collect(),
+    }
+}
+
+/// Clause (3) for one packet: parse `m` leniently; if it parses to a legal r2, run (1)+(2) on r2.
+fn reparse<T: Rt>(acc: &mut Acc, tier: Tier, m: &[u8], c: &T::Ctx, o: &Origin) -> bool {
+    let mut st = (false, false);
+    let res = catch_unwind(AssertUnwindSafe(|| {
+        T::parse(m, c, false, &mut |p| {
+            if let Some(r2) = p {
+                st.0 = true;
+                if T::legal(r2, c) {
+                    st.1 = true;
+                    if let Some(b) = check::<T>(acc, tier, r2, c, o) {
+                        acc.fps.push(fp64(T::NAME, &b));
+                    }
+                } else if acc.verbose {
+                    println!("  parsed value is outside the proviso of the statement, skipped: {:?}", r2);
+                }
+            }
+        });
+    }));
+    match res {
+        Ok(()) => {
+            if st.0 && !st.1 {
+                acc.mutants_outside_proviso += 1;
+            }
+            st.0
+        }
+        Err(_) => {
+            // a parser panic on arbitrary bytes is C07's business, not C06's (`check` catches
+            // the panics of the code it calls itself, so this one came from the lenient parse)
+            acc.mutant_parse_panics += 1;
+            false
+        }
+    }
+}
+
+struct TypeStats {
+    name: &'static str,
+    acc: Acc,
+    chunks: usize,
+    catalogue_packets: usize,
+    mutated_packets: usize,
+    distinct: u64,
+    validated: u64,
+    machinery: Vec<String>,
+    wall: f64,
+}
+
+fn run_type<T: Rt>(tier: Tier, out: &mut Vec<TypeStats>) {
+    let t0 = std::time::Instant::now();
+    let n = T::nchunks(tier);
+    let (maxp, maxlen) = T::mut_params(tier);
+    let maxp = maxp * mut_scale(tier);
+    // stage 1+2: generated values
+    let stage1 = |ci: usize| {
+            let vals = T::chunk(tier, ci);
+            // candidates: every variant's first value + an even thinning to about 4x the
+            // number of packets finally kept
+            let stride = (vals.len() * n / (4 * maxp)).max(1);
+            let mut acc = Acc::default();
+            let mut cat = vec![];
+            let mut seen_tags: Vec<String> = vec![];
+            for (vi, (r, c)) in vals.iter().enumerate() {
+                let o = Origin { chunk: ci, index: vi, mutation: None, catalogue: None };
+                if let Some(b) = check::<T>(&mut acc, tier, r, c, &o) {
+                    acc.fps.push(fp64(T::NAME, &b));
+                    let tag = T::tag(r);
+                    let new_tag = !seen_tags.contains(&tag);
+                    if new_tag {
+                        seen_tags.push(tag);
+                    }
+                    if b.len() <= maxlen && (new_tag || vi % stride == 0) {
+                        cat.push((ci, vi, b, c.clone()));
+                    }
+                }
+            }
+            (acc, cat)
+    };
+    let parts: Vec<(Acc, Vec<(usize, usize, Vec<u8>, T::Ctx)>)> = (0..n).into_par_iter().map(stage1).collect();
+    // determinism: every chunk is generated and checked a second time; the sequence of emitted
+    // byte strings (fingerprints, in generation order) and the violation counters must repeat
+    let again: Vec<(Vec<u64>, BTreeMap<String, u64>)> = (0..n)
+        .into_par_iter()
+        .map(|ci| {
+            let (a, _) = stage1(ci);
+            (a.fps, a.viol_hits)
+        })
+        .collect();
+    let mut machinery = vec![];
+    let mut validated = 0u64;
+    for (ci, ((a, _), (fps2, hits2))) in parts.iter().zip(again.iter()).enumerate() {
+        if a.fps != *fps2 || a.viol_hits != *hits2 {
+            machinery.push(format!("{}: re-execution of chunk {} did not reproduce (nondeterminism in harness or code under test)", T::NAME, ci));
+        } else {
+            validated += a.values;
+        }
+    }
+    let mut acc = Acc::default();
+    let mut cands = vec![];
+    for (a, c) in parts {
+        acc.merge(a);
+        cands.extend(c);
+    }
+    if acc.values == 0 {
+        machinery.push(format!("{}: empty domain", T::NAME));
+    }
+    // representative subset: distinct packets, evenly thinned to at most `maxp`
+    let mut seen = std::collections::BTreeSet::new();
+    cands.retain(|(_, _, b, c)| seen.insert((b.clone(), format!("{:?}", c))));
+    let total = cands.len();
+    let chosen: Vec<_> = if total > maxp {
+        (0..maxp).map(|k| cands[k * total / maxp].clone()).collect()
+    } else {
+        cands
+    };
+    let mutated_packets = chosen.len();
+    // stage 3: single-byte mutants of each chosen packet (in batches, so that the fingerprint
+    // list can be de-duplicated as it grows)
+    fn compact(acc: &mut Acc) {
+        acc.fps.par_sort_unstable();
+        acc.fps.dedup();
+    }
+    compact(&mut acc);
+    let mut last = acc.fps.len();
+    for batch in chosen.chunks(1024) {
+        let subs: Vec<Acc> = batch
+            .par_iter()
+            .map(|(ci, vi, b, c)| {
+                let mut acc = Acc::default();
+                let mut m = b.clone();
+                for pos in 0..b.len() {
+                    for val in mutation_values(tier, b[pos]) {
+                        m[pos] = val;
+                        acc.mutants_tried += 1;
+                        acc.parses += 1;
+                        let o = Origin { chunk: *ci, index: *vi, mutation: Some((pos, val)), catalogue: None };
+                        if reparse::<T>(&mut acc, tier, &m, c, &o) {
+                            acc.mutants_parsed += 1;
+                        }
+                    }
+                    m[pos] = b[pos];
+                }
+                acc.fps.sort_unstable();
+                acc.fps.dedup();
+                acc
+            })
+            .collect();
+        for s in subs {
+            acc.merge(s);
+        }
+        if acc.fps.len() > (2 * last).max(8_000_000) {
+            compact(&mut acc);
+            last = acc.fps.len();
+        }
+    }
+    // hand-made catalogue
+    let cat = T::catalogue(tier);
+    let catalogue_packets = cat.len();
+    let subs: Vec<Acc> = cat
+        .par_iter()
+        .enumerate()
+        .map(|(i, (b, c))| {
+            let mut acc = Acc::default();
+            acc.parses += 1;
+            let o = Origin { chunk: 0, index: 0, mutation: None, catalogue: Some(i) };
+            if reparse::<T>(&mut acc, tier, b, c, &o) {
+                acc.catalogue_parsed += 1;
+            }
+            acc
+        })
+        .collect();
+    for s in subs {
+        acc.merge(s);
+    }
+    compact(&mut acc);
+    let distinct = acc.fps.len() as u64;
+    acc.fps = vec![];
+    out.push(TypeStats { name: T::NAME, acc, chunks: n, catalogue_packets, mutated_packets, distinct, validated, machinery, wall: t0.elapsed().as_secs_f64() });
+}
+
+fn replay_type<T: Rt>(art: &Value, found: &mut Option<i32>) {
+    let r = &art["replay"];
+    if r["type"].as_str() != Some(T::NAME) {
+        return;
+    }
+    let tier = if r["tier"].as_str() == Some("thorough") { Tier::Thorough } else { Tier::Quick };
+    let ci = r["chunk"].as_u64().unwrap_or(0) as usize;
+    let vi = r["index"].as_u64().unwrap_or(0) as usize;
+    let mut acc = Acc { verbose: true, ..Default::default() };
+    println!("replay {} ({})", T::NAME, T::domain_doc());
+    if let Some(k) = r["catalogue"].as_u64() {
+        let cat = T::catalogue(tier);
+        let Some((b, c)) = cat.get(k as usize) else {
+            eprintln!("MACHINERY ERROR: catalogue index {} out of range", k);
+            *found = Some(2);
+            return;
+        };
+        println!("catalogue packet {}: {}", k, hex(b));
+        let o = Origin { chunk: 0, index: 0, mutation: None, catalogue: Some(k as usize) };
+        let p = reparse::<T>(&mut acc, tier, b, c, &o);
+        println!("parses: {}", p);
+    } else {
+        if ci >= T::nchunks(tier) {
+            eprintln!("MACHINERY ERROR: chunk {} out of range", ci);
+            *found = Some(2);
+            return;
+        }
+        let vals = T::chunk(tier, ci);
+        let Some((v, c)) = vals.get(vi) else {
+            eprintln!("MACHINERY ERROR: index {} out of range in chunk {}", vi, ci);
+            *found = Some(2);
+            return;
+        };
+        let o = Origin { chunk: ci, index: vi, mutation: None, catalogue: None };
+        match r["mutation"].as_object() {
+            None => {
+                println!("generated value chunk {} index {}:", ci, vi);
+                check::<T>(&mut acc, tier, v, c, &o);
+            }
+            Some(m) => {
+                let pos = m["pos"].as_u64().unwrap_or(0) as usize;
+                let val = m["val"].as_u64().unwrap_or(0) as u8;
+                let mut quiet = Acc::default();
+                let Some(mut b) = check::<T>(&mut quiet, tier, v, c, &o) else {
+                    println!("source value no longer emits");
+                    *found = Some(1);
+                    return;
+                };
+                println!("source value chunk {} index {}: {:?}", ci, vi, v);
+                println!("source packet : {}", hex(&b));
+                if pos >= b.len() {
+                    eprintln!("MACHINERY ERROR: mutation position out of range");
+                    *found = Some(2);
+                    return;
+                }
+                b[pos] = val;
+                println!("mutant (byte {} := 0x{:02x}): {}", pos, val, hex(&b));
+                let o = Origin { mutation: Some((pos, val)), ..o };
+                let p = reparse::<T>(&mut acc, tier, &b, c, &o);
+                println!("mutant parses: {}", p);
+            }
+        }
+    }
+    // verdict: does the artefact's own signature still show on this input?  (other
+    // signatures hit by the same input are printed above but belong to their own artefacts)
+    let want = art["signature"].as_str().unwrap_or("");
+    if acc.viols.is_empty() {
+        println!("no violation on replay");
+        *found = Some(0);
+    } else if want.is_empty() || acc.viols.contains_key(want) {
+        println!("replay verdict: {} still violated", if want.is_empty() { "property" } else { want });
+        *found = Some(1);
+    } else {
+        println!("replay verdict: {} no longer shows on this input (other signatures listed above do)", want);
+        *found = Some(0);
+    }
+}
+
+macro_rules! each_type {
+    ($f:ident, $($a:expr),*) => {
+        $f::<link::Eth>($($a),*);
+        $f::<link::Arp>($($a),*);
+        $f::<ip::V4>($($a),*);
+        $f::<ip::V6>($($a),*);
+        $f::<ip::ExtHdr>($($a),*);
+        $f::<ip::Frag>($($a),*);
+        $f::<ip::Opt>($($a),*);
+        $f::<ip::Hbh>($($a),*);
+        $f::<ip::Routing>($($a),*);
+        $f::<icmp::Icmp4>($($a),*);
+        $f::<icmp::Icmp6>($($a),*);
+        $f::<icmp::Ndisc>($($a),*);
+        $f::<icmp::NdOpt>($($a),*);
+        $f::<icmp::Mld>($($a),*);
+        $f::<icmp::MldRec>($($a),*);
+        $f::<icmp::Igmp>($($a),*);
+        $f::<transport::Udp>($($a),*);
+        $f::<transport::Tcp>($($a),*);
+        $f::<transport::TcpOpt>($($a),*);
+        $f::<app::Dhcp>($($a),*);
+        $f::<app::Dns>($($a),*);
+        $f::<link::L154>($($a),*);
+        $f::<lowpan::Iphc>($($a),*);
+        $f::<lowpan::NhcExt>($($a),*);
+        $f::<lowpan::NhcUdp>($($a),*);
+        $f::<lowpan::Frag>($($a),*);
+    };
+}
+
+fn doc_type<T: Rt>(m: &mut serde_json::Map<String, Value>) {
+    m.insert(T::NAME.to_string(), json!(T::domain_doc()));
+}
+
+pub fn run(tier: Tier) -> i32 {
+    let mut rep = Report::new("C06", tier);
+    rep.assumptions.push("domain = cross products of per-field boundary alphabets inside the documented ranges (per type: coverage.domains); values outside what the protocol permits (the statement's proviso) are not generated; no sampling, no randomness".into());
+    rep.assumptions.push("declared length = Repr::buffer_len(); for types whose API keeps the payload outside the Repr (Ipv4Repr, Ipv6Repr, UdpRepr, SixlowpanUdpNhcRepr, Ipv6ExtHeaderRepr, MldAddressRecordRepr, MldRepr::ReportRecordReprs) = header length + payload, the payload being written by the harness the way the interface code does".into());
+    rep.assumptions.push("clause 3 (mutants) parses with ChecksumCapabilities::ignored(), then re-emits/re-parses the obtained value with default (verifying) capabilities; a panic of a parser on a mutated packet is counted (mutant_parse_panics) but is property C07's subject, not reported here".into());
+    rep.assumptions.push("distinct emitted byte strings are counted through a 64-bit SipHash of (type, bytes)".into());
+    let mut stats: Vec<TypeStats> = vec![];
+    each_type!(run_type, tier, &mut stats);
+    let mut docs = serde_json::Map::new();
+    each_type!(doc_type, &mut docs);
+
+    let mut per_type = serde_json::Map::new();
+    let (mut states, mut evals, mut nontriv, mut validated) = (0u64, 0u64, 0u64, 0u64);
+    let mut tot = Acc::default();
+    for s in &mut stats {
+        let a = &s.acc;
+        per_type.insert(
+            s.name.to_string(),
+            json!({
+                "values_enumerated": a.values, "chunks": s.chunks,
+                "emits": a.emits, "parses": a.parses,
+                "distinct_emitted_byte_strings": s.distinct,
+                "packets_mutated": s.mutated_packets,
+                "mutants_tried": a.mutants_tried, "mutants_parsed": a.mutants_parsed,
+                "mutants_parsed_but_outside_proviso": a.mutants_outside_proviso,
+                "mutant_parser_panics_ignored": a.mutant_parse_panics,
+                "handmade_catalogue_packets": s.catalogue_packets, "handmade_catalogue_parsed": a.catalogue_parsed,
+                "reparsed_values_checked": a.r2_values,
+                "generated_values_re_executed_identically": s.validated,
+                "violation_hits_by_signature": a.viol_hits,
+                "sample_value": a.sample, "sample_mutant": a.sample_mut,
+                "wall_s": (s.wall * 100.0).round() / 100.0,
+            }),
+        );
+        states += s.distinct;
+        evals += a.emits + a.parses;
+        nontriv += a.values + a.r2_values;
+        validated += s.validated;
+        rep.machinery_errors.extend(s.machinery.iter().cloned());
+    }
+    // 12 samples are kept: generated values and mutants of a spread of types
+    for (i, s) in stats.iter().enumerate() {
+        if i % 4 == 1 {
+            if let Some(smp) = &s.acc.sample {
+                rep.samples.push(smp.clone());
+            }
+            if let Some(smp) = &s.acc.sample_mut {
+                rep.samples.push(smp.clone());
+            }
+        }
+    }
+    for s in stats {
+        for (sig, (detail, replay)) in &s.acc.viols {
+            rep.violation(sig.clone(), detail.clone(), replay.clone());
+        }
+        tot.merge(s.acc);
+    }
+    rep.add_count("states", states);
+    rep.add_count("transitions", evals);
+    rep.add_count("evaluations", evals);
+    rep.add_count("traces_validated_against_impl", validated);
+    rep.add_count("distinct_nontrivial", nontriv);
+    rep.add_count("values_enumerated", tot.values);
+    rep.add_count("mutants_tried", tot.mutants_tried);
+    rep.add_count("mutants_parsed", tot.mutants_parsed);
+    rep.add_count("reparsed_values_checked", tot.r2_values);
+    rep.cov("rule", json!("per type: every value of the stated cross product is emitted into exact-length buffers pre-filled 0x00/0xFF/0xA5 (no panic, identical bytes) and parsed back (must equal); a representative subset of the emitted packets (every variant, evenly thinned) gets every single-byte mutation (quick: {0x00,0xff,^0x01,^0x80}; thorough: all 255 other values) and every mutant that still parses to a value inside the proviso goes through the same emit/parse check. states = distinct (type, emitted bytes); transitions = emit + parse evaluations; distinct_nontrivial = values (generated + re-parsed) that went through the full emit/parse check; traces_validated_against_impl = generated values whose complete check was executed a second time with identical emitted bytes and verdicts"));
+    rep.cov("fills", json!(["0x00", "0xff", "0xa5"]));
+    rep.cov("per_type", Value::Object(per_type));
+    rep.cov("domains", Value::Object(docs));
+    rep.and_exhaustive(true);
+    rep.finish()
+}
+
+pub fn replay(art: &serde_json::Value) -> i32 {
+    let mut found: Option<i32> = None;
+    each_type!(replay_type, art, &mut found);
+    match found {
+        Some(c) => c,
+        None => {
+            eprintln!("MACHINERY ERROR: unknown type {:?} in artefact", art["replay"]["type"]);
+            2
+        }
+    }
+}
+
+// ---------------------------------------------------------------------------------------
+// shared alphabets
+// ---------------------------------------------------------------------------------------
+pub mod alpha {
+    use crate::core::Tier;
+    use smoltcp::wire::*;
+
+    /// first `q` entries in the quick tier, everything in the thorough tier
+    pub fn pick<T: Clone>(tier: Tier, all: &[T], q: usize) -> Vec<T> {
+        match tier {
+            Tier::Quick => all.iter().take(q).cloned().collect(),
+            Tier::Thorough => all.to_vec(),
+        }
+    }
+
+    pub fn macs() -> Vec<EthernetAddress> {
+        vec![
+            EthernetAddress([0x02, 0x00, 0x00, 0x00, 0x00, 0x01]),
+            EthernetAddress([0xff; 6]),
+            EthernetAddress([0x00; 6]),
+            EthernetAddress([0x01, 0x00, 0x5e, 0x00, 0x00, 0x01]),
+            EthernetAddress([0x33, 0x33, 0xff, 0x12, 0x34, 0x56]),
+        ]
+    }
+    pub fn v4s() -> Vec<Ipv4Address> {
+        vec![
+            Ipv4Address::new(10, 0, 0, 1),
+            Ipv4Address::new(255, 255, 255, 255),
+            Ipv4Address::new(0, 0, 0, 0),
+            Ipv4Address::new(224, 0, 0, 1),
+            Ipv4Address::new(127, 0, 0, 1),
+            Ipv4Address::new(192, 168, 1, 255),
+            Ipv4Address::new(169, 254, 1, 1),
+        ]
+    }
+    pub fn v6s() -> Vec<Ipv6Address> {
+        vec![
+            Ipv6Address::new(0xfe80, 0, 0, 0, 0, 0, 0, 1),
+            Ipv6Address::new(0xff02, 0, 0, 0, 0, 0, 0, 1),
+            Ipv6Address::new(0, 0, 0, 0, 0, 0, 0, 0),
+            Ipv6Address::new(0x2001, 0xdb8, 0, 0, 0, 0, 0, 1),
+            Ipv6Address::new(0, 0, 0, 0, 0, 0, 0, 1),
+            Ipv6Address::new(0xfe80, 0, 0, 0, 0, 0xff, 0xfe00, 0x1234),
+            Ipv6Address::new(0xff02, 0, 0, 0, 0, 1, 0xff00, 1),
+            Ipv6Address::new(0, 0, 0, 0, 0, 0xffff, 0xc000, 0x0201),
+            Ipv6Address::new(0xfd00, 0, 0, 0, 0, 0, 0, 1),
+            Ipv6Address::new(0xff05, 0, 0, 0, 0, 0, 1, 3),
+            Ipv6Address::new(0xffff, 0xffff, 0xffff, 0xffff, 0xffff, 0xffff, 0xffff, 0xffff),
+        ]
+    }
+    pub fn protos() -> Vec<IpProtocol> {
+        vec![
+            IpProtocol::Tcp,
+            IpProtocol::Udp,
+            IpProtocol::Icmpv6,
+            IpProtocol::Unknown(0xfe),
+            IpProtocol::HopByHop,
+            IpProtocol::Icmp,
+            IpProtocol::Igmp,
+            IpProtocol::Ipv6Route,
+            IpProtocol::Ipv6Frag,
+            IpProtocol::IpSecEsp,
+            IpProtocol::IpSecAh,
+            IpProtocol::Ipv6NoNxt,
+            IpProtocol::Ipv6Opts,
+            IpProtocol::Unknown(0xff),
+        ]
+    }
+    pub const U8S: [u8; 4] = [0, 255, 1, 64];
+    pub const U16S: [u16; 4] = [0, 0xffff, 1, 0x8000];
+    pub const U32S: [u32; 4] = [0, 0xffff_ffff, 1, 0x8000_0000];
+
+    /// deterministic non-constant payload pattern; slices of it are `'static`
+    pub fn pattern() -> &'static [u8] {
+        static P: std::sync::OnceLock<Vec<u8>> = std::sync::OnceLock::new();
+        P.get_or_init(|| (0..70000usize).map(|i| (i.wrapping_mul(7).wrapping_add(3) ^ (i >> 8)) as u8).collect())
+    }
+    pub fn pat(len: usize) -> &'static [u8] {
+        &pattern()[..len]
+    }
+    pub fn pat_at(off: usize, len: usize) -> &'static [u8] {
+        &pattern()[off..off + len]
+    }
+    /// leak a generated vector (only used for a bounded number of generator-side constants)
+    pub fn leak<T>(v: Vec<T>) -> &'static [T] {
+        Box::leak(v.into_boxed_slice())
+    }
 }
